@@ -34,6 +34,13 @@ pub enum Profile {
     Watch,
 }
 
+/// The property whose check is running (None: every finding ends a trace).
+pub static FOCUS: std::sync::Mutex<Option<String>> = std::sync::Mutex::new(None);
+
+pub fn set_focus(prop: &str) {
+    *FOCUS.lock().unwrap() = Some(prop.to_string());
+}
+
 #[derive(Clone, Debug)]
 pub struct SimCfg {
     pub profile: Profile,
@@ -323,14 +330,31 @@ impl World {
         self.log.push(format!("#{} t={:.3} {}", self.step_no, self.now_s(), s));
     }
 
-    /// true when a finding that is not a listed known finding was recorded (ends the trace)
+    /// true when a finding that is not a listed known finding was recorded for the property being decided (ends the
+    /// trace). Findings for OTHER properties do not end it: a change that first trips another property's monitor
+    /// (say, a frontier that goes back: C04) must still be followed to its consequence for this one (the livelock: C01).
     pub fn fatal(&self) -> bool {
-        self.findings.iter().any(|f| f.known.is_none())
+        let focus = FOCUS.lock().unwrap().clone();
+        self.findings.iter().any(|f| f.known.is_none() && focus.as_deref().map(|p| f.is_for(p)).unwrap_or(true))
+    }
+
+    /// At most 50 findings are kept per trace, but findings for the property being decided are never crowded out by
+    /// those for other properties.
+    fn admit(&self, f: &Finding) -> bool {
+        if self.findings.len() < 50 {
+            return true;
+        }
+        let focus = FOCUS.lock().unwrap().clone();
+        match focus.as_deref() {
+            Some(p) => f.is_for(p) && self.findings.iter().filter(|g| g.is_for(p)).count() < 50,
+            None => false,
+        }
     }
 
     pub fn fail(&mut self, props: &[&'static str], kind: &str, detail: String) {
-        if self.findings.len() < 50 {
-            self.findings.push(Finding::new(props, kind, detail));
+        let f = Finding::new(props, kind, detail);
+        if self.admit(&f) {
+            self.findings.push(f);
         }
     }
 
@@ -360,6 +384,14 @@ impl World {
             0 => format!("[2001:db8::{:x}]:{port}", slot + 1).parse().unwrap(),
             1 => format!("[::ffff:10.0.0.{}]:{port}", slot + 1).parse().unwrap(),
             _ => addr(port),
+        };
+        // half of the namesake traces: the two namesakes also share IP and port and differ by the address FORM only
+        // (a.b.c.d:p vs [::ffff:a.b.c.d]:p): still two distinct ids, two distinct members
+        let a: std::net::SocketAddr = if self.seed % 5 == 3 && (self.seed / 5) % 2 == 0 && self.cfg.profile != Profile::TwoClusters {
+            let k = slot / 2;
+            if slot % 2 == 0 { format!("10.0.0.{}:{}", k + 1, 100 + 2 * k).parse().unwrap() } else { format!("[::ffff:10.0.0.{}]:{}", k + 1, 100 + 2 * k).parse().unwrap() }
+        } else {
+            a
         };
         let id = ChitchatId::new(self.node_id_string(slot), gen, a);
         let cb = Arc::new(AtomicUsize::new(0));
@@ -854,7 +886,7 @@ impl World {
                     continue;
                 }
             }
-            if self.findings.len() < 50 {
+            if self.admit(&f) {
                 self.findings.push(f);
             }
         }
